@@ -146,6 +146,8 @@ type Unit struct {
 	loopN    int
 	inSpec   int
 	assertArgs []Val
+	onPos     map[*CallAssert][]token.Pos
+	matchedCA map[*CallAssert]bool
 	callN    map[string]int
 	safeN    map[string]int
 	closures map[types.Object]*ast.FuncLit
